@@ -309,9 +309,10 @@ class FollowTie(Tie):
     instance; where the implementation answered differently on a case tagged as having ties, the model driver
     is asked (mode `allowed`) whether the implementation's answer is the model's answer for some ordering of
     the ties (exhaustive search with a budget; `undecided` counts as allowed and is reported on stderr)."""
-    SEARCH_CAP = 400      # at most this many searches per run (a broken tree produces many disagreements)
     BUDGET = 600
-    SECONDS = 40          # cpu time for all searches of a run; later ones are left as disagreements
+    SECONDS = 40          # cpu time for all searches of a quick run (scaled up with the number of cases); searches
+                          # not done within it are accepted like "undecided" (counted on stderr), never reported:
+                          # a broken tree produces many disagreements, but those on the exact classes stay visible
 
     def run_impl(self, cpp, cases):
         out = super().run_impl(cpp, cases)
@@ -325,10 +326,10 @@ class FollowTie(Tie):
         impl = getattr(self, "_impl", {})
         idx = [i for i, c in enumerate(cases)
                if c.split(" ", 2)[1:2] in (["B"], ["RB"]) and c in impl and impl[c] != out[i]]
-        idx = idx[: self.SEARCH_CAP]
+        seconds = self.SECONDS * max(1, len(cases) // 1500)
         if idx:
             lines = [cases[i] + " => " + impl[cases[i]] for i in idx]
-            rc, ans, err = core.run_lines(mdl, ["allowed", str(self.BUDGET), str(self.SECONDS)], lines, self.timeout)
+            rc, ans, err = core.run_lines(mdl, ["allowed", str(self.BUDGET), str(seconds)], lines, self.timeout)
             und = 0
             if len(ans) == len(idx):
                 for i, a in zip(idx, ans):
